@@ -685,16 +685,31 @@ def parse_file(path, keep_trait_impls=()):
 # ------------------------------------------------------------------------------------------------ translation tables
 NAT_TYPES = {"U7", "U14", "U4", "Channel", "ControllerNumber", "KeyNumber", "u8", "u16", "u32", "u64", "usize",
              "Duration", "Instant"}
-EXTERN_TYPES = {"ShortMessageType": "MsgType", "MessageSuperType": "SuperType", "MessageMainCategory": "MainCategory",
+BYTES_TUPLE = {"k": "tuple", "elems": [{"k": "path", "name": "u8", "args": []}, {"k": "path", "name": "U7", "args": []},
+                                       {"k": "path", "name": "U7", "args": []}]}
+# tuple structs around the byte triple: the value IS the triple
+BYTES_NEWTYPES = {"RawShortMessage"}
+EXTERN_TYPES = {"RawShortMessage": "Bytes", "TimeCodeType": "TimeCodeType", "ShortMessageType": "MsgType", "MessageSuperType": "SuperType", "MessageMainCategory": "MainCategory",
                 "FuzzyMessageSuperType": "FuzzySuperType", "TimeCodeQuarterFrame": "QFrame",
                 "ParameterNumberMessage": "PNMsg", "ControlChange14BitMessage": "CC14Msg", "DataType": "DataType",
                 "StructuredShortMessage": "SMsg", "bool": "Bool"}
 # extern enums: Rust name -> (Lean type, constructor naming = lower-first of the Rust variant name)
 EXTERN_ENUMS = {"DataType": "DataType", "StructuredShortMessage": "SMsg", "ShortMessageType": "MsgType",
-                "MessageSuperType": "SuperType", "MessageMainCategory": "MainCategory", "FuzzyMessageSuperType": "FuzzySuperType"}
+                "MessageSuperType": "SuperType", "MessageMainCategory": "MainCategory", "FuzzyMessageSuperType": "FuzzySuperType",
+                "TimeCodeQuarterFrame": "QFrame", "TimeCodeType": "TimeCodeType"}
+# hand-written constructor names that are not the lower-first form of the Rust variant name
+EXTERN_VARIANT_NAMES = {("TimeCodeQuarterFrame", "FrameCountLsNibble"): "frameCountLs", ("TimeCodeQuarterFrame", "FrameCountMsNibble"): "frameCountMs",
+                        ("TimeCodeQuarterFrame", "SecondsCountLsNibble"): "secondsLs", ("TimeCodeQuarterFrame", "SecondsCountMsNibble"): "secondsMs",
+                        ("TimeCodeQuarterFrame", "MinutesCountLsNibble"): "minutesLs", ("TimeCodeQuarterFrame", "MinutesCountMsNibble"): "minutesMs",
+                        ("TimeCodeQuarterFrame", "HoursCountLsNibble"): "hoursLs", ("TimeCodeQuarterFrame", "Last"): "last"}
+UNREACHABLE_PANICS = {("TimeCodeQuarterFrame", "from"): "qfUnreachable"}
+# `T::try_from(x)` / `x.try_into()` into a num_enum type: Option-valued table lookup of the hand-written model
+TRY_FROM_U8 = {"ShortMessageType": "Midi.MsgType.ofU8", "TimeCodeType": "Midi.TimeCodeType.ofU8"}
+TO_U8 = {"ShortMessageType": "Midi.MsgType.toU8", "TimeCodeType": "Midi.TimeCodeType.toU8"}
 EXTERN_ENUM_FILES = [("src/structured_short_message.rs", ["StructuredShortMessage"]),
                      ("src/parameter_number_message.rs", ["DataType"]),
-                     ("src/short_message.rs", ["ShortMessageType", "MessageSuperType", "MessageMainCategory", "FuzzyMessageSuperType"])]
+                     ("src/short_message.rs", ["ShortMessageType", "MessageSuperType", "MessageMainCategory", "FuzzyMessageSuperType",
+                                               "TimeCodeQuarterFrame", "TimeCodeType"])]
 EXTERN_CONSTS = {"U7::MIN": "0", "U14::MIN": "0", "U4::MIN": "0", "Channel::MIN": "0", "KeyNumber::MIN": "0",
                  "ControllerNumber::MIN": "0"}
 # methods of types outside the translated files, by (receiver type, method)
@@ -717,15 +732,13 @@ EXTERN_FNS = {
     "extract_high_7_bit_value_from_14_bit_value": ("pure", "Midi.extractHigh7"),
     "extract_low_7_bit_value_from_14_bit_value": ("pure", "Midi.extractLow7"),
     "U7": ("id", None), "U14": ("id", None), "U4": ("id", None), "Channel": ("id", None),
-    "u16::from": ("id", None), "u32::from": ("id", None),
+
     "ControllerNumber": ("id", None), "KeyNumber": ("id", None),
     "extract_type_from_status_byte": ("res", "Midi.extractType"),
     "extract_channel_from_status_byte": ("pure", "Midi.extractChannel"),
     "build_status_byte": ("pure", "Midi.buildStatusByte"),
     "ControllerNumber::from": ("id", None), "KeyNumber::from": ("id", None), "U7::from": ("id", None),
-    "usize::from": ("id", None),
-    "u8::from": ("id", None),
-    "u16::from": ("id", None),
+
     "Some": ("pure", "some"),
 }
 # methods of the rest of the crate, by name: kind pure1 (lean f recv), res1, msgres (uses I), id, elapsed
@@ -740,7 +753,8 @@ EXTERN_METHODS = {
     "elapsed": ("elapsed", None),
 }
 # .expect("<message>") on an Option: which panic site of the model it is
-EXPECT_PANICS = {"impossible": "cc14LsbImpossible", "invalid status byte detected": "invalidStatusByte",
+EXPECT_PANICS = {"unknown time code type": "unknownTimeCodeType",
+                 "impossible": "cc14LsbImpossible", "invalid status byte detected": "invalidStatusByte",
                  "invalid status byte": "structuredInvalidStatus"}
 # static functions of a `T: ShortMessageFactory` type parameter
 FACTORY_FNS = {"control_change": "Midi.mkControlChange F", "from_bytes_unchecked": "F.ofBytesUnchecked"}
@@ -754,6 +768,9 @@ CAST_MOD = {"u8": 2 ** 8, "u16": 2 ** 16, "u32": 2 ** 32, "u64": 2 ** 64, "usize
 RESERVED_TYPE_NAMES = {"Res", "Panic", "Impl", "Bytes", "Factory", "SMsg", "PNMsg", "CC14Msg", "DataType"}
 
 LEAN_KEYWORDS = {"continue", "break", "return", "end", "from", "at", "do", "then", "else", "if", "match", "with", "fun", "let", "in", "open", "where"}
+
+def extern_variant(en, vn):
+    return EXTERN_VARIANT_NAMES.get((en, vn)) or lower_first(vn)
 
 def lower_first(s):
     n = s[0].lower() + s[1:]
@@ -905,6 +922,9 @@ class Gen:
         if n in NAT_TYPES: return "Nat"
         if n in EXTERN_TYPES and n not in self.structs and n not in self.enums and n in self.rename: return EXTERN_TYPES[n]
         if n == "Option": return "(Option %s)" % self.ty(t["args"][0], owner, generics, fngen)
+        if n == "Result":
+            self.notes.add("`Result<T, E>` with a unit-like error is modelled as `Option T` (`Err(_)` = none)")
+            return "(Option %s)" % self.ty(t["args"][0], owner, generics, fngen)
         if n in self.rename:
             if t["args"]:
                 return "(%s %s)" % (self.rename[n], " ".join(self.ty(a, owner, generics) for a in t["args"]))
@@ -1009,6 +1029,8 @@ class Gen:
         if k == "path":
             en = self.variant_enum(e["segs"], env, ctx)
             return {"k": "path", "name": en, "args": []} if en else None
+        if k == "tfield" and e["idx"] == 0 and e["e"].get("k") == "path" and e["e"]["segs"] == ["self"] and ctx["owner"] in BYTES_NEWTYPES:
+            return BYTES_TUPLE
         if k == "mcall":
             rt = self.rtype(e["recv"], env, ctx)
             if rt and rt["k"] == "ref": rt = rt["inner"]
@@ -1096,6 +1118,7 @@ class Gen:
         o, n = key
         if o and o in self.structs and n in [fn for fn, _ in self.structs[o]["fields"]]:
             n = n + "_fn"                 # a getter named like the field it reads
+        if n in LEAN_KEYWORDS: n = n + "_"
         return ("%s.%s" % (self.rename[o], n)) if o else n
 
     def emit_fn(self, key):
@@ -1137,6 +1160,7 @@ class Gen:
             for x, proj, ety in zip(pat["elems"], ["status", "d1", "d2"], pt["elems"]):
                 pre.append("let %s := %s.%s" % (x["segs"][0], pname, proj))
                 env["vars"][x["segs"][0]] = (x["segs"][0], ety)
+        self._ann_imports = set()
         self.annotate(f["body"], f["ret"], env, ctx)
         if key not in self.needs_factory and f["ret"] is not None and f["ret"].get("name") in FACTORY_BY_TYPE:
             ctx["factory_arg"] = FACTORY_BY_TYPE[f["ret"]["name"]]      # `self.to_other()` with the target inferred from the return type
@@ -1156,6 +1180,8 @@ class Gen:
             return tt["args"][0] if tt and tt.get("k") == "path" and tt.get("name") == "Option" and tt.get("args") else None
         if K == "block":
             for st in e["stmts"]:
+                if st["k"] == "use" and st["glob"]:
+                    self._ann_imports = set(getattr(self, "_ann_imports", set())) | {st["segs"][-1]}
                 if st["k"] == "let": self.annotate(st["e"], st.get("type"), env, ctx)
                 elif st["k"] == "assign":
                     ft = None
@@ -1201,7 +1227,7 @@ class Gen:
             ptypes = [pt for _, pt in self.fns[key]["params"]] if key else []
             for i, a in enumerate(e["args"]): self.annotate(a, ptypes[i] if i < len(ptypes) else None, env, ctx)
         elif K == "mcall":
-            self.annotate(e["recv"], None, env, ctx)
+            self.annotate(e["recv"], t if e["name"] in ("expect", "unwrap") else None, env, ctx)
             cands = self.by_name.get(e["name"], [])
             ptypes = [pt for _, pt in cands[0][1]["params"]] if len(cands) == 1 else []
             for i, a in enumerate(e["args"]): self.annotate(a, ptypes[i] if i < len(ptypes) else None, env, ctx)
@@ -1225,10 +1251,9 @@ class Gen:
         return list(self.enums) + list(self.extern_enum_decls)
 
     def variant_of_loose(self, segs, ctx):
-        """for the expected-type pre-pass only: a fully qualified variant, else (bare names) none"""
-        if len(segs) != 2: return None
+        """for the expected-type pre-pass only: a variant by qualified path or through the `use X::*` seen so far"""
         try:
-            return self.variant_of(segs, {"vars": {}, "imports": set()}, ctx)
+            return self.variant_of(segs, {"vars": {}, "imports": set(getattr(self, "_ann_imports", set()))}, ctx)
         except TErr:
             return None
 
@@ -1254,7 +1279,7 @@ class Gen:
                     if v["name"] == segs[1]: return ("%s.%s" % (self.rename[en], v["name"]), v, False)
             if en in EXTERN_ENUMS and en in self.extern_enum_decls:
                 for v in self.extern_enum_decls[en]["variants"]:
-                    if v["name"] == segs[1]: return ("%s.%s" % (EXTERN_ENUMS[en], lower_first(v["name"])), v, True)
+                    if v["name"] == segs[1]: return ("%s.%s" % (EXTERN_ENUMS[en], extern_variant(en, v["name"])), v, True)
         if len(segs) == 1:
             found = []
             for en in sorted(env["imports"]):
@@ -1263,7 +1288,7 @@ class Gen:
                         if v["name"] == segs[0]: found.append(("%s.%s" % (self.rename[en], v["name"]), v, False))
                 elif en in EXTERN_ENUMS and en in self.extern_enum_decls:
                     for v in self.extern_enum_decls[en]["variants"]:
-                        if v["name"] == segs[0]: found.append(("%s.%s" % (EXTERN_ENUMS[en], lower_first(v["name"])), v, True))
+                        if v["name"] == segs[0]: found.append(("%s.%s" % (EXTERN_ENUMS[en], extern_variant(en, v["name"])), v, True))
             if len(found) > 1: raise TErr("variant name %s is ambiguous between glob-imported enums" % segs[0])
             if found: return found[0]
         return None
@@ -1323,8 +1348,13 @@ class Gen:
         if K == "field":
             return self.E(e["e"], env, ctx, lambda v, env2: k("%s.%s" % (v, e["name"]) if re.match(r"^[\w.]+$", v) else "(%s).%s" % (v, e["name"]), env2))
         if K == "tfield":
-            if e["idx"] == 0 and e["e"].get("k") == "path" and e["e"]["segs"] == ["self"] and ctx["owner"] in NAT_TYPES:
-                return k("self", env)                      # the payload of a restricted integer is the Nat itself
+            if e["idx"] == 0 and e["e"].get("k") == "path" and e["e"]["segs"] == ["self"] and (ctx["owner"] in NAT_TYPES or ctx["owner"] in BYTES_NEWTYPES):
+                return k("self", env)                      # the payload of a restricted integer is the Nat itself (of Raw: the triple)
+            bt = self.rtype(e["e"], env, ctx)
+            if bt and bt["k"] == "ref": bt = bt["inner"]
+            if self.cfg.get("tuple3_bytes") and bt and bt["k"] == "tuple" and len(bt["elems"]) == 3 and e["idx"] < 3:
+                proj = ["status", "d1", "d2"][e["idx"]]
+                return self.E(e["e"], env, ctx, lambda v, env2: k("%s.%s" % (v, proj) if re.match(r"^[\w.]+$", v) else "(%s).%s" % (v, proj), env2))
             return self.E(e["e"], env, ctx, lambda v, env2: k("(%s).%d" % (v, e["idx"] + 1), env2))
         if K == "unary":
             op = {"!": "!", "-": "-"}[e["op"]]
@@ -1364,10 +1394,17 @@ class Gen:
             return self.seq([e["a"], e["b"]], env, ctx, kb)
         if K == "cast":
             if e["to"] not in CAST_MOD: raise TErr("cast to %s is outside the subset" % e["to"])
+            st = self.rtype(e["e"], env, ctx)
+            if st and st["k"] == "ref": st = st["inner"]
+            if st and st["k"] == "path" and st["name"] == "bool":
+                return self.E(e["e"], env, ctx, lambda v, env2: k("(if %s then 1 else 0)" % v, env2))
             self.notes.add("`as uN` on a Nat-modelled unsigned value is reduction modulo 2^N")
             return self.E(e["e"], env, ctx, lambda v, env2: k("(%s %% %d)" % (v, CAST_MOD[e["to"]]), env2))
         if K == "macro":
             site = (ctx["owner"], ctx["fn"]["name"])
+            if e["name"] == "unreachable" and not e["args"]:
+                if site not in UNREACHABLE_PANICS: raise TErr("unreachable! in %s::%s has no panic site in the model" % site)
+                return [".error .%s" % UNREACHABLE_PANICS[site]]
             if e["name"] == "assert_eq" and len(e["args"]) == 2:
                 if site not in ASSERT_PANICS: raise TErr("assert_eq! in %s::%s has no panic site in the model" % site)
                 def kae(vs, env2):
@@ -1503,7 +1540,24 @@ class Gen:
                 t = self.fresh()
                 return paren(["do", "  let %s ← %s %s" % (t, FACTORY_FNS[segs[1]], " ".join(vs))] + ind(k(t, env2)))
             return self.seq(e["args"], env, ctx, kf)
-        if full in EXTERN_FNS:
+        if segs == ["Self"] and ctx["owner"] in BYTES_NEWTYPES and len(e["args"]) == 1:
+            return self.E(e["args"][0], env, ctx, k)
+        if segs == ["Ok"] and len(e["args"]) == 1:
+            return self.E(e["args"][0], env, ctx, lambda v, env2: k("(some %s)" % v, env2))
+        if segs == ["Err"] and len(e["args"]) == 1:
+            return k("none", env)
+        if len(segs) == 2 and segs[1] == "try_from" and segs[0] in TRY_FROM_U8 and len(e["args"]) == 1:
+            return self.E(e["args"][0], env, ctx, lambda v, env2: k("(%s %s)" % (TRY_FROM_U8[segs[0]], v), env2))
+        if len(segs) == 2 and segs[1] == "from" and segs[0] in CAST_MOD and len(e["args"]) == 1:
+            at = self.rtype(e["args"][0], env, ctx)
+            if at and at["k"] == "ref": at = at["inner"]
+            an = at["name"] if at and at["k"] == "path" else None
+            if an in TO_U8:
+                return self.E(e["args"][0], env, ctx, lambda v, env2: k("(%s %s)" % (TO_U8[an], v), env2))
+            # restricted integers widen as themselves; an argument whose type is not tracked is passed through too:
+            # if it is not a Nat the generated module does not type-check (Lean is typed), i.e. the tie is unavailable
+            return self.E(e["args"][0], env, ctx, k)
+        if full in EXTERN_FNS and not (len(segs) == 1 and (None, segs[0]) in self.fns):
             kind, lean = EXTERN_FNS[full]
             def kx(vs, env2):
                 if kind == "id": return k(vs[0], env2)
@@ -1565,6 +1619,14 @@ class Gen:
         if rt0 and rt0["k"] == "path" and (rt0["name"], name) in TYPED_METHODS:
             lean = TYPED_METHODS[(rt0["name"], name)]
             return self.seq([recv] + e["args"], env, ctx, lambda vs, env2: k("(%s %s)" % (lean, " ".join(vs)), env2))
+        if name == "map_err" and len(e["args"]) == 1 and e["args"][0]["k"] == "closure":
+            return self.E(recv, env, ctx, k)             # Result-as-Option: mapping the error is the identity
+        if name == "try_into" and not e["args"]:
+            dst = e.get("expect")
+            dstn = dst["name"] if dst and dst.get("k") == "path" else None
+            if dstn in TRY_FROM_U8:
+                return self.E(recv, env, ctx, lambda v, env2: k("(%s %s)" % (TRY_FROM_U8[dstn], v), env2))
+            raise TErr("`.try_into()` into %s: conversion not modelled / target type unknown" % dstn)
         if name == "into" and not e["args"]:
             src = rt0["name"] if rt0 and rt0["k"] == "path" else None
             dst = e.get("expect")
@@ -1825,12 +1887,15 @@ FILES = [("control_change_14_bit_message.rs", "CCMsg", {}),
          # the default methods of the two traits (everything else in these files stays hand-modelled)
          ("short_message.rs", "ShortMsg", {"only_traits": ["ShortMessage"], "tuple3_bytes": True,
                                            "only_fns": ["build_mtc_quarter_frame_data_byte", "extract_low_nibble_from_byte",
-                                                        "extract_high_nibble_from_byte", "build_byte_from_nibbles"],
+                                                        "extract_high_nibble_from_byte", "build_byte_from_nibbles",
+                                                        "extract_type_from_status_byte"],
+                                           "trait_impls": [["From", "U7"], ["From", "TimeCodeQuarterFrame"]],
                                            "inherent_impls": ["ShortMessageType", "FuzzyMessageSuperType", "MessageSuperType"]}),
          ("controller_number_mod.rs", "CnPredicates", {"only_traits": [], "inherent_impls": ["ControllerNumber"]}),
+         ("raw_short_message.rs", "RawImpl", {"only_traits": [], "tuple3_bytes": True,
+                                              "trait_impls": [["ShortMessageFactory", "RawShortMessage"], ["ShortMessage", "RawShortMessage"]]}),
          ("bit_util.rs", "BitUtil", {}),
-         ("short_message_factory.rs", "FactoryDefaults", {"only_traits": ["ShortMessageFactory"], "tuple3_bytes": True,
-                                                          "skip_fns": ["from_bytes"]}),
+         ("short_message_factory.rs", "FactoryDefaults", {"only_traits": ["ShortMessageFactory"], "tuple3_bytes": True}),
          # the two trait impls of StructuredShortMessage (the enum itself is the hand-written SMsg)
          ("structured_short_message.rs", "StructuredImpl", {"only_traits": [], "tuple3_bytes": True,
                                                             "trait_impls": [["ShortMessageFactory", "StructuredShortMessage"],
